@@ -173,4 +173,4 @@ ITEMS = _rebased(_m.ITEMS) + [
 VERUS_ARGS = ['--multiple-errors', '30']
 # a false obligation in this 450-line function is refuted only after a long search: give the solver room (the unchanged tree needs ~6 s)
 RLIMIT = {'quick': 400, 'thorough': 1200}
-CANARIES = ['Evaluator::interpret']
+CANARIES = ['Residual::is_concrete']   # a global-consistency canary (interpret has no precondition; an  on it only burns solver time)
